@@ -276,7 +276,8 @@ def run(ctx):
 
     def process(cases):
         cases = [c for c in cases if dd.fresh(keyof(c))]
-        results = A.run_all(ctx, cases, tokens_of, np_of, chunk=60 if quick else 30, timeout=300)
+        results = A.run_all(ctx, cases, tokens_of, np_of, timeout=300,
+                            chunk_for=lambda c: 800 if c["k"] == "dims" else (60 if quick else 30))
         with A._lock:
             tot["slice"] += 1
             tag = "s%d" % tot["slice"]
